@@ -1749,6 +1749,7 @@ func propC07(run *Run, n int) {
 			choices = append(choices[:len(choices):len(choices)], ch)
 		}
 	}
+	addDeepPathCases(run, func(o OptSet, label string, a, b *Val) { addC07Case(run, o, label, a, b) })
 	for k := 0; k < 2; k++ {
 		a, b := largePair(r, k == 1)
 		run.Count("large-arrays")
